@@ -626,6 +626,9 @@ def undefine_unused_variables(source: str, preserve: Collection[str] = frozenset
             ast.AnnAssign(target=ast.Name(id="_")),
             ast.AugAssign(target=ast.Name(id="_")),
     ),):
+        if "_" in preserve:
+            # Something assigned to _ is meant to stay, for example _ = gettext.gettext
+            continue
         if node not in class_body_blacklist:
             yield node, node.value
 
